@@ -3,7 +3,7 @@ Import ListNotations.
 From BB Require Import BN Brute SpaceFacts TrapFacts PercolateFacts AttractorFacts Diagram Invariants Checks Filter
   Strict PetriNet Control Meta FilterFacts PetriNetFacts TrappistFacts DiagramStruct DiagramSem1 DiagramCache
   DiagramDepth DiagramComplete Termination ControlFacts MetaFacts Candidates StrictFacts MinExpandFacts CandidatesFacts SymbolicTest SymbolicTestFacts Signed ReductionFacts ControlFacts2 Main Blocks BlocksFacts ObsFacts OwnerFacts CandidatesTerm
-  PartialOwner BlockMath BlockComplete ASeeds ASeedsFacts LogChecks SkipRule SkipRuleFacts Names NamesFacts Perm PermFacts SCC SCCFacts SCCStruct ControlFacts3 SCCTerm FilterSym Main2 StrategyFacts ControlFacts4."""
+  PartialOwner BlockMath BlockComplete ASeeds ASeedsFacts LogChecks SkipRule SkipRuleFacts Names NamesFacts Perm PermFacts SCC SCCFacts SCCStruct ControlFacts3 SCCTerm FilterSym Main2 StrategyFacts ControlFacts4 PyLib PySrc PySrcFacts."""
 
 EX_NET = """
 (* non-vacuity: two bistable switches; x0'=x1, x1'=x0, x2'=x3, x3'=x2 *)
@@ -193,7 +193,9 @@ forces it, the final trap space meets the target and every minimal trap space in
            ("target_expansion_prepares", "target_expansion_TargetExpanded", "the target-directed expansion of a fresh diagram establishes the hypotheses"),
            ("chain_follows_path", "chain_follows_path", "the accumulated assumptions are the node spaces along the path"),
            ("skip_feedforward_sound", "succession_control_ff_sound", "with skip_feedforward_successions the reported interventions are a subset, so the property still holds"),
-           ("skip_feedforward_subset", "succession_control_ff_incl", None)],
+           ("skip_feedforward_subset", "succession_control_ff_incl", None),
+           ("source_is_subspace", "py_is_subspace_spec", "translator tie: the function generated from the CURRENT source of space_utils.is_subspace equals the model's subspace"),
+           ("source_intersect", "py_intersect_spec", "... and space_utils.intersect the model's intersect")],
  examples="")
 
 SPEC["C07"] = dict(title="Control output is complete, minimal and honours the user's constraints", comment="""
@@ -265,7 +267,9 @@ pn_faithful_b is the exact executable test applied to the REAL Petri nets on eve
            ("fix_net_trap_space", "fix_net_trap_space", "percolating/fixing sources keeps the dynamics on the subspace"),
            ("fix_net_percolate", "fix_net_percolate", None),
            ("place_round_trip", "place_round_trip", "place names b0_/b1_ map back to (variable, value)"),
-           ("place_name_inj", "place_name_inj", None)],
+           ("place_name_inj", "place_name_inj", None),
+           ("source_variable_to_place", "py_variable_to_place_spec", "translator tie: generated from the current source of petri_net_translation.variable_to_place"),
+           ("source_place_to_variable", "py_place_to_variable_spec", None)],
  examples="")
 
 SPEC["C11"] = dict(title="Percolation computes exactly the logical domain of influence", comment="""
@@ -452,5 +456,7 @@ PARTIAL: summary() is not modelled; it is decided by recomputation in the run.""
            ("depth_is_max", "depth_is_max", None), ("depth_attained", "depth_attained", None), ("raise_depth_spec", "raise_depth_spec", None),
            ("space_key_inj", "space_key_inj", None), ("is_subgraph_spec", "is_subgraph_b_spec", "node-set and edge-set inclusion"),
            ("block_expansion_depth", "expand_block_DepthOK", "depth = longest root path after block expansion (source shortcut included)"),
-           ("aseeds_expansion_depth", "expand_aseeds_DepthOK", None)],
+           ("aseeds_expansion_depth", "expand_aseeds_DepthOK", None),
+           ("source_space_unique_key", "py_space_unique_key_spec", "translator tie: the node key generated from the current source of space_utils.space_unique_key is the model's space_key"),
+           ("source_space_unique_key_raises", "py_space_unique_key_raises", "IndexError exactly for unknown variables")],
  examples="")
